@@ -31,6 +31,27 @@ func isSliceOrString(t types.Type) bool {
 	return false
 }
 
+// tailOffset: b is len(x)-k for a positive constant k (the k-th element from the end).
+func tailOffset(b, x ssa.Value) (int64, bool) {
+	bo, ok := b.(*ssa.BinOp)
+	if !ok || bo.Op != token.SUB {
+		return 0, false
+	}
+	k, isC := constInt(bo.Y)
+	if !isC || k <= 0 {
+		return 0, false
+	}
+	call, ok := bo.X.(*ssa.Call)
+	if !ok || calleeName(&call.Call) != "builtin.len" {
+		return 0, false
+	}
+	a := call.Call.Args[0]
+	if a == x || (vpath(a) != "" && vpath(a) == vpath(x)) {
+		return k, true
+	}
+	return 0, false
+}
+
 func constBoundAccesses(fn *ssa.Function) []boundAccess {
 	var out []boundAccess
 	eachInstr(fn, func(in ssa.Instruction) {
@@ -40,6 +61,7 @@ func constBoundAccesses(fn *ssa.Function) []boundAccess {
 				return
 			}
 			need := int64(0)
+			tail := int64(0)
 			for _, b := range []ssa.Value{x.Low, x.High, x.Max} {
 				if b == nil {
 					continue
@@ -47,9 +69,15 @@ func constBoundAccesses(fn *ssa.Function) []boundAccess {
 				if v, isC := constInt(b); isC && v > need {
 					need = v
 				}
+				if k, ok := tailOffset(b, x.X); ok && k > tail {
+					tail = k
+				}
 			}
 			if need > 0 {
 				out = append(out, boundAccess{in, x.X, need, fmt.Sprintf("slice [%s:%s]", valStr(x.Low), valStr(x.High))})
+			}
+			if tail > 0 {
+				out = append(out, boundAccess{in, x.X, tail, fmt.Sprintf("slice bound len-%d", tail)})
 			}
 		case *ssa.IndexAddr:
 			if _, ok := x.X.Type().Underlying().(*types.Slice); !ok {
@@ -58,12 +86,18 @@ func constBoundAccesses(fn *ssa.Function) []boundAccess {
 			if v, isC := constInt(x.Index); isC && v >= 0 {
 				out = append(out, boundAccess{in, x.X, v + 1, fmt.Sprintf("index [%d]", v)})
 			}
+			if k, ok := tailOffset(x.Index, x.X); ok {
+				out = append(out, boundAccess{in, x.X, k, fmt.Sprintf("index [len-%d]", k)})
+			}
 		case *ssa.Index:
 			if !isSliceOrString(x.X.Type()) {
 				return
 			}
 			if v, isC := constInt(x.Index); isC && v >= 0 {
 				out = append(out, boundAccess{in, x.X, v + 1, fmt.Sprintf("index [%d]", v)})
+			}
+			if k, ok := tailOffset(x.Index, x.X); ok {
+				out = append(out, boundAccess{in, x.X, k, fmt.Sprintf("index [len-%d]", k)})
 			}
 		}
 	})
